@@ -396,13 +396,17 @@ func (r *renderer) expr1(n Node, noIn bool) {
 				r.t(",")
 			}
 			key := p.Key
-			switch p.KeyAs {
-			case "string":
-				key = Quote(p.Key)
-			case "number":
-			default:
-				if !isIdentName(p.Key) {
+			if p.KeyRaw != "" {
+				key = p.KeyRaw
+			} else {
+				switch p.KeyAs {
+				case "string":
 					key = Quote(p.Key)
+				case "number":
+				default:
+					if !isIdentName(p.Key) {
+						key = Quote(p.Key)
+					}
 				}
 			}
 			switch p.Kind {
@@ -585,7 +589,7 @@ var lineTerms = []string{"\n", "\r", "\r\n", "\u2028", "\u2029"}
 var spaces = []string{" ", "\t", "\v", "\f", "\u00a0", "\ufeff", "  "}
 
 func wordy(c byte) bool {
-	return c == '_' || c == '$' || (c >= 'a' && c <= 'z') || (c >= 'A' && c <= 'Z') || (c >= '0' && c <= '9') || c >= 0x80
+	return c == '_' || c == '$' || c == '\\' || (c >= 'a' && c <= 'z') || (c >= 'A' && c <= 'Z') || (c >= '0' && c <= '9') || c >= 0x80
 }
 
 func punct(c byte) bool { return strings.IndexByte("+-<>=&|!/*%^~.?:", c) >= 0 }
@@ -606,6 +610,9 @@ func needSpace(a, b string) bool {
 	}
 	if x == '.' && y >= '0' && y <= '9' {
 		return true
+	}
+	if x == '.' && wordy(y) && a[0] >= '0' && a[0] <= '9' {
+		return true // "5." followed by an identifier or keyword
 	}
 	return false
 }
@@ -646,7 +653,8 @@ func (r *renderer) join() string {
 				continue
 			}
 			nx := toks[i+1]
-			if nx.StmtHead && canStartAfterASI(nx.S) && !(i > 0 && (toks[i-1].S == "++" || toks[i-1].S == "--") && false) {
+			afterRegExp := i > 0 && len(toks[i-1].S) > 1 && toks[i-1].S[0] == '/' && toks[i-1].S != "/="
+			if !afterRegExp && nx.StmtHead && canStartAfterASI(nx.S) && !(i > 0 && (toks[i-1].S == "++" || toks[i-1].S == "--") && false) {
 				b.WriteString(lineTerms[rnd.Intn(3)])
 				continue
 			}
@@ -660,6 +668,11 @@ func (r *renderer) join() string {
 		case r.st.Trivia && rnd != nil:
 			n := rnd.Intn(3)
 			wrote := false
+			if n > 0 && strings.HasSuffix(t.S, "/") {
+				// "/" followed by a comment would read as "//" or "/*"
+				b.WriteString(" ")
+				wrote = true
+			}
 			for k := 0; k < n; k++ {
 				switch rnd.Intn(6) {
 				case 0, 1:
